@@ -199,6 +199,8 @@ type mon struct {
 	busyAt   int64  // consumer becomes busy when delivered >= busyAt (-1: off)
 	gateLoc  string // hook point at which the reader is to be held ("" off)
 	held     string // "" | "consumer" | hook point
+	armSeq   int64  // incremented by every armBusy/armGate: identifies one hold episode
+	heldSeq  int64  // the armSeq under which the current hold was taken
 	stop     bool
 	hits     map[string]int64
 	heldCnt  map[string]int64
